@@ -38,6 +38,24 @@ func registerBigModels() {
 		b, _ := new(big.Int).SetString(s, 10)
 		return c.BVLit(b, bigW)
 	}
+	// (*big.Float).Float64 / Float32: the nearest float and how it relates to the exact value. Whether the conversion is
+	// exact is a property of the big.Float value alone: bigfloat.exact64(x) / bigfloat.exact32(x) (uninterpreted);
+	// the returned accuracy is big.Exact (0) exactly in that case, otherwise Below (-1) or Above (+1).
+	for _, w := range []string{"64", "32"} {
+		w := w
+		callModels["(*math/big.Float).Float"+w] = func(e *Engine, f *frame, st *State, args []Val, rt types.Type, pos string) Val {
+			c := e.C
+			e.nilCheck(st, args[0], pos, "nil *big.Float")
+			tup := rt.(*types.Tuple)
+			v := e.fresh("bigfloat.f"+w, tup.At(0).Type())
+			acc := c.Fresh("bigfloat.acc", smt.BV(8))
+			exact := c.App("bigfloat.exact"+w, smt.Bool, args[0].Terms[0])
+			e.assume(st, c.And(c.Eq(exact, c.Eq(acc, c.BVLit64(0, 8))),
+				c.Or(c.Eq(acc, c.BVLit64(0, 8)), c.Eq(acc, c.BVLit64(1, 8)), c.Eq(acc, c.BVLit64(-1, 8)))))
+			e.note("(*big.Float).Float" + w + ": result unconstrained, accuracy == big.Exact exactly when the value is representable (assumed contract of math/big)")
+			return Val{Typ: rt, Terms: append(append([]*smt.Term{}, v.Terms...), acc)}
+		}
+	}
 	callModels["math/big.NewInt"] = func(e *Engine, f *frame, st *State, args []Val, rt types.Type, pos string) Val {
 		ref := e.newRef(st)
 		e.bigSet(st, ref, i64(e.C, args[0].Terms[0]))
